@@ -1299,6 +1299,16 @@ def rule_read_primitives(ctx, g, rid):
                             strips += 1
                             if any(bi in blks for h, blks in loops):
                                 inloop = True
+            # the same test written as a pattern (`if let Some(&0) = data.last()`): a switch on a byte with an arm for 0
+            for bi, blk in enumerate(b.blocks):
+                t = blk["term"]
+                if t["k"] == "switch" and bi in b.reachable and not blk["cleanup"]:
+                    q0 = op_place(b.resolve_copy(t["on"]))
+                    is_byte = q0 is not None and ((not q0["p"] and b.local_ty(q0["l"])["s"] == "u8") or (q0["p"] == ["*"] and b.local_ty(q0["l"])["s"] in ("&u8", "&mut u8")))
+                    if is_byte and any(v == 0 for v, _ in t["arms"]):
+                        strips += 1
+                        if any(bi in blks for h, blks in loops):
+                            inloop = True
             if strips == 1 and not inloop:
                 ctx.ok(rid, f.short, "one trailing NUL test")
             else:
